@@ -16,6 +16,7 @@ def main(tier):
     kernels.point_kernels(P, rep)
     rep.attempt(shift.translation_invariance, P, rep)
     rep.attempt(dep.bbox_extremes, P, rep)       # the culling box spans the trench in every orientation (else answers depend on it)
+    rep.attempt(footprint.side_of_line_twins, P, rep)   # ridge selection by the side of the transform fault: orientation independent
     rep.assumptions.append("translation / rotation invariance in Cartesian worlds and longitude-offset invariance are statements about real "
                            "arithmetic in every kernel: decided only for the distance kernels of Point (closed forms that are invariant by inspection of "
                            "the formula) and, by a shift-degree abstract interpretation, for the polygon test, the signed polygon distance and the "
